@@ -15,7 +15,7 @@ together with the xany routine of the same name (xconst -> xany) on the same inp
 bit-identical (floats included; NaN matches NaN; for max/min either zero is accepted as in C05) with identical \
 panic behaviour; on nightly builds float \
 reductions / cosine / float division may differ by twice the C04 / C06 / C02 tolerance and are then fed \
-well-scaled finite data. Value classes: mixed boundary/random without NaN, small integers, scaled finite floats, \
+well-scaled finite data. Value classes: mixed boundary/random without NaN, the same with NaNs (floats, default math), small integers, scaled finite floats, \
 integer division with a zero divisor at a chosen index (both must panic), full-range integers for cosine. \
 distinct = hash set over (routine, DIMS, mask, value, a, b); non-trivial = DIMS > 0.";
 
@@ -133,7 +133,9 @@ fn one_target<T: Elem>(ctx: &mut Ctx, t: Target<T>, partner: Routine<T>) {
         if rep % 32 == 0 && run.ctx.out_of_time() {
             break;
         }
-        let class = rep % 4;
+        // floats (outside the nightly tolerance cases) get a fifth class with NaNs: the two forms must agree on where a NaN
+        // comes out (e.g. x86 `maxps` returns its second operand when either is NaN, so the operand order shows)
+        let class = if T::FLOAT && !nightly_float_red { rep % 5 } else { rep % 4 };
         let gen = |rng: &mut Rng, divisor: bool| -> T {
             let v: T = if nightly_float_red {
                 if class == 1 {
@@ -144,6 +146,7 @@ fn one_target<T: Elem>(ctx: &mut Ctx, t: Target<T>, partner: Routine<T>) {
             } else {
                 match class {
                     0 | 3 => vals::mixed(rng, &bounds, false),
+                    4 => vals::mixed(rng, &bounds, true),
                     1 => vals::small_int::<T>(rng, 9),
                     _ => {
                         if T::FLOAT {
